@@ -97,3 +97,17 @@ PROPS = {
                 slice="generated primitive definitions (expression trees) vs direct calls of both engines",
                 trusted=REALS + ["float-level agreement of numpy.power / casadi pow etc. is dynamic only"]),
 }
+
+# source pins (translator/pins.py): the hand-written models that are tied by sampling only have the text they were
+# written from pinned, so that no edit of it goes unnoticed
+PINS = {"compile": ["C03", "C04", "C05", "C16", "C19"], "selection": ["C13"], "cache": ["C08"],
+        "construct": ["C09", "C08"], "validity": ["C06"], "stepping": ["C07", "C11", "C12", "C19"]}
+PIN_TRUST = ("translator pins.py (T9): source text of the hand-modelled code pinned by string equality ({}) - a pin, not a "
+             "translation: it detects every edit and proves nothing about meaning")
+for _grp, _pids in PINS.items():
+    for _pid in _pids:
+        _m = dict(PROPS[_pid])
+        _m["extra_prop_files"] = list(_m.get("extra_prop_files", [])) + [f"props/Pin_{_grp}.v"]
+        _m["generators"] = list(_m.get("generators", [])) + [f"T-pin-{_grp}"]
+        _m["trusted"] = list(_m.get("trusted", [])) + [PIN_TRUST.format(_grp)]
+        PROPS[_pid] = _m
